@@ -112,6 +112,15 @@ def run_property(prop, tier, repo=None, write=True):
     for f, k in known_hits:
         out_lines.append("KNOWN-FINDING: property=%s %s %s:%s `%s` -- %s" % (prop, f.rule, f.file, f.qualname, f.construct, k.get("what", f.message)))
     viol_paths = []
+    if not os.environ.get("NFSTATIC_NOWRITE"):
+        # replay files of earlier runs of this property are stale now
+        import glob
+
+        for old in glob.glob(os.path.join(evidence_dir, "violations", "%s-*.json" % prop)):
+            try:
+                os.remove(old)
+            except OSError:
+                pass
     if violations:
         code = 1
         vdir = os.path.join(evidence_dir, "violations")
@@ -214,6 +223,11 @@ def main(argv=None):
     a = ap.parse_args(argv)
     if a.replay:
         return replay(a.property, a.replay)
+    from . import REPO
+
+    if a.repo and os.path.realpath(a.repo) != os.path.realpath(REPO):
+        # a scratch tree: evidence under /verif describes /repo only
+        os.environ.setdefault("NFSTATIC_NOWRITE", "1")
     return run_property(a.property, a.tier, a.repo)
 
 
